@@ -20,6 +20,8 @@ RULE = ("each case = one object and a history of 1..8 set_phosphosites (single i
 
 
 def cases(rng, tier):
+    for c in band_cases(rng, tier):
+        yield c
     # duplicates of objects with built-up state: every way of copying x every kind of state
     for l in core.copy_cases(rng, 2 if tier == "quick" else 12, ['getphos', 'phosseq', 'kappaphos']):
         yield Case([l], {"kind": "duplicate-of-object"})
@@ -70,6 +72,25 @@ def shared_child_cases(rng, tier):
                  "setphos 2 " + " ".join(map(str, rng.sample(sty, min(len(sty), 3)) + [0, L + 1])), "o 2 getphos", "o 1 getphos", "o 2 phosseq", "o 1 phosseq",
                  "o 2 kappaphos", "o 1 kappaphos", "clearphos 2", "o 1 getphos", "o 2 getphos", "o 1 phosseq"]
         yield Case(lines, {"kind": "shuffled-child-is-independent"})
+
+
+def band_cases(rng, tier):
+    """parents whose fully phosphorylated state is one of the sequences in kappa's 1.0-1.1 reporting band; a lone site at residue 1"""
+    for band in gen.CLAMP_BAND:
+        idx = [i for i, c in enumerate(band) if c == "E"]
+        if not idx or len(idx) > 4:
+            continue
+        parent = list(band)
+        for i in idx:
+            parent[i] = rng.choice("STY")
+        parent = "".join(parent)
+        sites = [i + 1 for i in idx]
+        rng.shuffle(sites)
+        yield Case(["new 1 " + parent, "setphos 1 " + " ".join(map(str, sites)), "o 1 getphos", "o 1 phosseq", "o 1 kappaphos", "o 1 phosdist"], {"kind": "reporting-band-state"})
+    for s in ("SGKKGEGKKTGGEEDG", "TKEKEKGG", "YGGGKEKE", "SAAAAKKEE"):
+        for setl in ("setphos 1 1", "setphos 1 0 1 2 1 99 -3"):
+            yield Case(["new 1 " + s, setl, "o 1 getphos", "o 1 phosseq", "o 1 kappaphos", "o 1 phosdist", "clearphos 1", "o 1 kappaphos", setl, "o 1 kappaphos"],
+                       {"kind": "only-site-is-residue-1"})
 
 
 def expected_sites(seq, hist_prefix):
